@@ -3,6 +3,7 @@ position walker, tree comparator, small utilities.  Everything that is an *oracl
 written without using parso's own position / line splitting code."""
 import hashlib
 import os
+import re
 import sys
 
 REPO = os.environ.get('VERIF_REPO', '/repo')
@@ -367,10 +368,20 @@ def aborted(fn, n, files=None):
         _sys.settrace(old)
 
 
-def disturb(g, h):
+_FSTART = re.compile(r'''(?i)(?<![A-Za-z0-9_])(rf|fr|f)("""|\'\'\'|"|\')''')
+
+
+def disturb(g, h, hint=None):
+    """``hint``: the text of the case itself; half of the time the unfinished earlier operation then works on a *related* text - it
+    stops inside a replacement field of an f-string with the same opening token as one in the case."""
     import parso as _parso
     from parso.python.tokenize import tokenize as _tokenize
     text = DISTURB_TEXTS[(h >> 3) % len(DISTURB_TEXTS)]
+    if hint and (h >> 20) % 2:
+        ms = _FSTART.findall(hint)
+        if ms:
+            p_, q_ = ms[(h >> 21) % len(ms)]
+            text = ['s = %s{a b}%s\n', 'if x:\n    s = %s{a + (b\n', 'print(%s{a!r:{w} }%s 1)\n'][(h >> 24) % 3].replace('%s', p_ + q_, 1).replace('%s', q_)
     mode = h % 9
     if mode == 0:
         kw = {'start_symbol': 'eval_input'} if (h >> 16) % 2 else {}       # (the other start rule of the grammar files)
@@ -423,4 +434,4 @@ def maybe_disturb(g, *parts):
     """One case in three is preceded by an unfinished earlier call (see ``disturb``); a pure function of the case."""
     h = case_int(*parts)
     if h % 3 == 0:
-        disturb(g, h // 3)
+        disturb(g, h // 3, parts[0] if isinstance(parts[0], str) else None)
